@@ -23,7 +23,8 @@ Inductive ekind :=
 | KBegin (c : nat)                                   (* reactive.compute.begin *)
 | KPick (sl res : nat)                               (* harness: the compute function reads the slot's resource *)
 | KRead (sl ver : nat)                               (* harness: the compute function reads the slot's version *)
-| KTimerNew (res : nat)                              (* reactive.handleRelease on a first-seen node (InvalidateAfter) *)
+| KTimerNew (res : nat)                              (* reactive.InvalidateAfter.new *)
+| KTimerReg (res : nat) (released : bool)            (* reactive.handleRelease on an InvalidateAfter resource *)
 | KSkip                                              (* harness: OTimer / OFail / ORetry skipped (budget) *)
 | KCacheGet (key : nat) (child : option nat)         (* reactive.cache.get *)
 | KCacheSet (key child : nat) (stored : bool)        (* reactive.cache.set *)
@@ -70,8 +71,8 @@ Fixpoint val_eqb (a b : list (nat * nat)) : bool :=
 (** Does event kind [k] name the critical section frame [f] stands at?  If so, the label argument. *)
 Definition match_arg (f : frame) (k : ekind) : option nat :=
   match f, k with
-  | FInvList _, KInvNoop n => Some n
-  | FInvList _, KInvMark n _ _ => Some n
+  | FInvList l, KInvNoop n => if memb n l then Some n else None
+  | FInvList l, KInvMark n _ _ => if memb n l then Some n else None
   | FStrobe n, KStrobe n' _ => if Nat.eqb n n' then Some 0 else None
   | FRelEnter n, KRelEnter n' => if Nat.eqb n n' then Some 0 else None
   | FRelMark n, KRelNoop n' => if Nat.eqb n n' then Some 0 else None
@@ -81,13 +82,14 @@ Definition match_arg (f : frame) (k : ekind) : option nat :=
   | FRunWait r, KRunProceed r' => if Nat.eqb r r' then Some 0 else None
   | FRunLock r, KRunLocked r' _ => if Nat.eqb r r' then Some 0 else None
   | FCleanStart r, KCleanStart r' _ => if Nat.eqb r r' then Some 0 else None
-  | FClean r (_ :: _), KCleanEntry child _ => Some child
+  | FClean r ks, KCleanEntry child _ => if memb child ks then Some child else None
   | FClean r [], KCleanEnd r' => if Nat.eqb r r' then Some 0 else None
   | FBegin _, KBegin _ => Some 0
   | FChildBegin _ _ _ _, KBegin _ => Some 0
   | FScript _ _ (ODep sl :: _), KPick sl' _ => if Nat.eqb sl sl' then Some 0 else None
   | FScript _ _ (OTimer :: _), KTimerNew _ => Some 1
   | FScript _ _ (OTimer :: _), KSkip => Some 0
+  | FTimerReg _ n, KTimerReg n' _ => if Nat.eqb n n' then Some 0 else None
   | FScript _ _ (OCache key _ :: _), KCacheGet key' _ => if Nat.eqb key key' then Some 0 else None
   | FScript _ _ (OCache _ _ :: _), KFail _ false => Some 1
   | FScript _ _ (OFail :: _), KSkip => Some 0
@@ -136,6 +138,7 @@ Definition obs_ok (s : state) (f : frame) (rest : list frame) (k : ekind) : bool
   | KPick sl res => Nat.eqb res (slot_res s sl)
   | KRead sl ver => Nat.eqb ver (slot_ver s sl)
   | KTimerNew res => Nat.eqb res (length (s_nodes s))
+  | KTimerReg n released => Bool.eqb released (n_rel (getN s n))
   | KSkip => true
   | KCacheGet key child =>
       match f with
@@ -257,7 +260,7 @@ Fixpoint replay (s : state) (b : list (nat * nat)) (i : nat) (es : list event) :
     silently because their rerunner's context is cancelled *)
 Definition leftover_ok (s : state) : bool :=
   forallb (fun t => match snd t with
-                    | [FRunWait r] => r_cancel (getr s r)
+                    | FRunWait r :: rest => r_cancel (getr s r) && is_nil (norm rest)
                     | _ => false
                     end) (s_tasks s).
 
